@@ -9,7 +9,12 @@ predicates of Spec/ConnUpdates.lean on what the server did:
 
 * class `model-…`   : the model and the code disagree (acknowledged result, index dump, events,
                       observer liveness, wire view) — a correspondence failure;
-* class `ack`       : an update was not acknowledged exactly once;
+* class `ack`       : an update was not acknowledged exactly once: `cause=update-never-acknowledged`
+                      (no result within the watchdog), `cause=update-acknowledged-twice` (a second `Done`:
+                      the one-shot waiter panics on it, or a second result arrives), `cause=update-not-taken`
+                      (the loop no longer reads the connector's channel), `cause=server-panic`; with
+                      `kind=<update kind> target=<what it named>` and, if the update before was refused,
+                      `after-refused=<its kind>` (the pipeline did not go on);
 * class `effect-K`  : a valid update of kind K was not applied as described;
 * class `idempotent-K` : an update that only restates the state changed it or was announced;
 * class `invalid-K` : an update naming unknown / protected objects changed the state or was not refused;
@@ -127,9 +132,9 @@ def parseNewMsg (s : String) : Option NewMsg :=
 
 def parseUpdate (db : DB) (w : List String) : Option Update :=
   match w with
-  | ["MC", rid, name] => some (.mailboxCreated (decRid rid) name)
+  | ["MC", rid, name] => some (.mailboxCreated (decRid rid) (decName name))
   | ["MD", rid] => some (.mailboxDeleted (decRid rid))
-  | ["MU", rid, name] => some (.mailboxUpdated (decRid rid) name)
+  | ["MU", rid, name] => some (.mailboxUpdated (decRid rid) (decName name))
   | ["MI", ref, rid] =>
     let iid := if ref.startsWith "@" then
         match db.mboxByRid (decRid (ref.drop 1).toString) with
@@ -206,6 +211,10 @@ structure JState where
   bad : List (String × String)
   cov : List (String × Nat)
   cfg : Cfg
+  /-- the update of the step right before this one (none: that step was not an update) -/
+  prevU : Option Update := none
+  /-- kind of the last update if it was refused (acknowledged with an error) and no update came since -/
+  prevRefused : Option String := none
 
 def litsOf (db : DB) (rid : RID) : String :=
   match db.msgByRid rid with
@@ -261,6 +270,77 @@ def gcDeaths (db : DB) (obs : List Observer) (died : List Nat) : DB :=
     | i :: rest => go (gc db (heldBy db obs (i :: gone))) (i :: gone) rest
   go db [] order
 
+/-- what the update named (one word, for the `target=` field of an acknowledgement failure) -/
+def targetOf : Update → String
+  | .mailboxCreated rid name => s!"mailbox:{rid},name:{name.replace " " "_"}"
+  | .mailboxDeleted rid => s!"mailbox:{rid}"
+  | .mailboxUpdated rid name => s!"mailbox:{rid},name:{name.replace " " "_"}"
+  | .mailboxIDChanged iid rid => s!"mailbox-internal-id:{iid},new-id:{rid}"
+  | .messagesCreated _ ms => "messages:" ++ "/".intercalate (ms.map (fun m => s!"{m.rid}>{joinOr m.mboxes "+"}"))
+  | .messageMailboxesUpdated rid mbs _ => s!"message:{rid},mailboxes:{joinOr mbs "+"}"
+  | .messageFlagsUpdated rid _ => s!"message:{rid}"
+  | .messageIDChanged iid rid => s!"message-internal-id:{iid},new-id:{rid}"
+  | .messageDeleted rid => s!"message:{rid}"
+  | .messageUpdated m _ => s!"message:{m.rid},mailboxes:{joinOr m.mboxes "+"}"
+  | .uidValidityBumped => "-"
+  | .noop => "-"
+  | .unknown => "-"
+
+/-- the cells of the kind × variant table this update falls into, judged on the index `db` it met -/
+def variantsOf (cfg : Cfg) (db : DB) (u : Update) (valid restates dup : Bool) : List String :=
+  let unknownMb (b : RID) : Bool := b != cfg.recoveryRID && !db.known b
+  let unknown : Bool := match u with
+    | .mailboxDeleted rid => unknownMb rid
+    | .mailboxUpdated rid _ => unknownMb rid
+    | .mailboxIDChanged iid _ => (db.mboxByIid iid).isNone
+    | .messagesCreated _ ms => ms.any (fun m => m.mboxes.any unknownMb)
+    | .messageMailboxesUpdated rid mbs _ => (db.msgByRid rid).isNone || mbs.any unknownMb
+    | .messageFlagsUpdated rid _ => (db.msgByRid rid).isNone
+    | .messageIDChanged iid _ => (db.msgByIid iid).isNone
+    | .messageDeleted rid => (db.msgByRid rid).isNone
+    | .messageUpdated m _ => (db.msgByRid m.rid).isNone || m.mboxes.any unknownMb
+    | _ => false
+  let protId : Bool := match u with
+    | .mailboxCreated rid _ => rid == cfg.recoveryRID
+    | .mailboxDeleted rid => rid == cfg.recoveryRID
+    | .mailboxUpdated rid _ => rid == cfg.recoveryRID
+    | .mailboxIDChanged iid rid => iid == cfg.recoveryIID || rid == cfg.recoveryRID
+    | .messagesCreated _ ms => ms.any (fun m => m.mboxes.contains cfg.recoveryRID)
+    | .messageMailboxesUpdated _ mbs _ => mbs.contains cfg.recoveryRID
+    | .messageUpdated m _ => m.mboxes.contains cfg.recoveryRID
+    | _ => false
+  let protName : Bool := match u with
+    | .mailboxCreated _ name => name == recName
+    | .mailboxUpdated _ name => name == recName
+    | _ => false
+  let isNoop : Bool := match u with | .noop => true | _ => false
+  (if valid && (!restates || isNoop) then ["valid"] else []) ++
+  (if unknown then ["unknown-id"] else []) ++
+  (if protId then ["protected-id"] else []) ++
+  (if protName then ["protected-name"] else []) ++
+  (if dup then ["duplicate"] else []) ++
+  (if restates then ["restating"] else [])
+
+/-- an acknowledgement failure: which one, of which kind of update, naming what -/
+def ackFailure (ack head : String) : Option (String × String) :=
+  let panics := (head.splitOn "|").filter (fun t => t.startsWith "panic(")
+  let closedCh := panics.any (fun t => (t.splitOn "closed_channel").length > 1)
+  if closedCh then
+    -- `updateWaiter.Done` sends on / closes a channel it has closed already: the update loop dies with it
+    some ("update-acknowledged-twice", s!"Done was called again on an acknowledged update, the goroutine applying updates panicked: {head}")
+  else if ack == "noack" then
+    some ("update-never-acknowledged", "taken from the connector but no acknowledgement within the watchdog: Wait() blocks for ever, a connector that waits for its updates in order delivers nothing further" ++
+      (if panics.isEmpty then "" else s!" ({head})"))
+  else if ack == "nottaken" then
+    some ("update-not-taken", "the server did not take the update from the connector's channel within the watchdog: the update loop has stopped")
+  else if ack.startsWith "ack2" then
+    if (ack.splitOn "waiter_still_open").length > 1 then some ("update-waiter-left-open", s!"a result was delivered but the waiter was not closed: {ack}")
+    else if (ack.splitOn "nil_error").length > 1 then some ("update-nil-error-delivered", s!"success was delivered as a value instead of closing the waiter: {ack}")
+    else some ("update-acknowledged-twice", s!"a second acknowledgement arrived: {ack}")
+  else if !panics.isEmpty then
+    some ("server-panic", s!"a server goroutine panicked while the update was applied: {head}")
+  else none
+
 def stepU (st : JState) (k : Nat) (w : List String) (head : String) (secs : List String) : JState :=
   match parseUpdate st.db w with
   | none => fail st k "harness" "unparsable update step"
@@ -272,10 +352,17 @@ def stepU (st : JState) (k : Nat) (w : List String) (head : String) (secs : List
     let toks := headTokens head
     let st := { st with checks := st.checks + 1, kinds := if st.kinds.contains kind then st.kinds else kind :: st.kinds }
     -- exactly one acknowledgement, no panic
-    let st := if ack == "noack" || ack == "nottaken" || ack.startsWith "ack2" then
-                fail st k "ack" s!"{kind} was not acknowledged exactly once: {ack}" else st
-    let st := if (head.splitOn "|").any (fun t => t.startsWith "panic(") then
-                fail st k "ack" s!"a server goroutine panicked while {kind} was applied: {head}" else st
+    let dup := st.prevU == some u
+    let after := match st.prevRefused with | some pk => s!" after-refused={pk}" | none => ""
+    let ackBad := ackFailure ack head
+    let st := match ackBad with
+      | some (cause, why) =>
+        fail st k "ack" s!"cause={cause} kind={kind} target={targetOf u}{after} : {why}"
+      | none => st
+    -- the server is abandoned after a missing acknowledgement: nothing else was observed
+    if ack == "noack" || ack == "nottaken" then
+      (variantsOf st.cfg pre u (Valid st.cfg pre u) (Restates st.cfg pre u) dup).foldl (fun st v => bump st s!"t.{kind}.{v}") st
+    else
     -- observers
     let died := toks.filter (fun t => t.2 == "dead") |>.map (·.1)
     let expectDead := (st.obs.filter (fun o => o.alive &&
@@ -286,8 +373,17 @@ def stepU (st : JState) (k : Nat) (w : List String) (head : String) (secs : List
                 fail st k "model-observer" s!"{kind}: observers that lost their session: observed {died}, model {expectDead}" else st
     let post := gcDeaths r.db st.obs died
     -- model against code
-    let st := if ack != showErr r.err && !(ack == "noack" || ack == "nottaken" || ack.startsWith "ack2") then
-                fail st k "model-ack" s!"{kind}: acknowledged {ack}, model {showErr r.err}" else st
+    -- (`applyMessagesCreated` walks a Go map: when several mailboxes refuse their messages with different
+    --  errors, which one is acknowledged depends on the iteration order; the model takes insertion order,
+    --  `C06.messagesCreated_map_order`: every order acknowledges one of `mscPossibleErrs`, the index is the same)
+    let possible : List String := match u with
+      | .messagesCreated ig ms => (mscPossibleErrs st.cfg pre ig ms).map (fun e => showErr (some e))
+      | .messageUpdated m true =>
+        if (pre.msgByRid m.rid).isNone then (mscPossibleErrs st.cfg pre true [m]).map (fun e => showErr (some e)) else []
+      | _ => []
+    let st := if ack != showErr r.err && !ack.startsWith "ack2" then
+                (if possible.contains ack then bump st "msc.other-map-order-error"
+                 else fail st k "model-ack" s!"{kind}: acknowledged {ack}, model {showErr r.err}") else st
     let obsDump := "~".intercalate secs
     let st := if dumpDB post != obsDump then
                 fail st k "model-state" s!"{kind}: index after the update differs; observed {obsDump} model {dumpDB post}" else st
@@ -310,6 +406,15 @@ def stepU (st : JState) (k : Nat) (w : List String) (head : String) (secs : List
     let prot := ProtectedViaMessageUpdated st.cfg pre u && sane
     let obsCmp := if died.isEmpty then obsDB else obsDB  -- a dying observer only triggers gc; effects are compared modulo ghosts below
     let st := bump st s!"ack.{(showErr r.err).replace ":" "-"}.{kind}"
+    -- the kind × variant table, and "the pipeline goes on": what came right after a refused update
+    let st := (variantsOf st.cfg pre u valid restates dup).foldl (fun st v => bump st s!"t.{kind}.{v}") st
+    let st := match st.prevRefused with
+      | some pk =>
+        let st := bump st "pipe.update-after-refused"
+        if valid && !restates then
+          bump (bump st s!"pipe.valid-after-refused.{pk}") (if ack == "ok" then "pipe.valid-after-refused-applied" else "pipe.valid-after-refused-NOT-applied")
+        else st
+      | none => st
     let st := match u with
       | .messageUpdated m _ =>
         (match pre.msgByRid m.rid with
@@ -370,7 +475,8 @@ def stepU (st : JState) (k : Nat) (w : List String) (head : String) (secs : List
           else st
       | _, _, _ => st) st
     let obs' := st.obs.map (fun o => if died.contains o.idx then { o with alive := false, sel := none } else o)
-    { st with db := obsDB, obs := obs' }
+    { st with db := obsDB, obs := obs', prevU := some u,
+              prevRefused := if ack.startsWith "err:" then some kind else none }
 
 def stepS (st : JState) (k : Nat) (i : Nat) (w : List String) (head : String) (secs : List String) : JState :=
   let status := ((head.splitOn "|").headD "")
@@ -433,8 +539,8 @@ def runSteps : JState → Nat → List String → List String → JState
     let st' :=
       match w with
       | "U" :: rest => stepU st k rest head secs
-      | "X" :: _ => stepCheck st k (parts.filter (fun p => p != "CHK" && !(p.startsWith "CHK|")))
-      | sx :: rest => if sx.startsWith "S" then stepS st k (nat! (sx.drop 1).toString) rest head secs else st
+      | "X" :: _ => { stepCheck st k (parts.filter (fun p => p != "CHK" && !(p.startsWith "CHK|"))) with prevU := none }
+      | sx :: rest => if sx.startsWith "S" then { stepS st k (nat! (sx.drop 1).toString) rest head secs with prevU := none } else st
       | [] => st
     runSteps st' (k + 1) ss os
 
